@@ -428,7 +428,14 @@ def apply_delta(key, delta, data):
     # Assimilate new data
     if getattr(delta, 'added', False):
         if key != WORKFLOW:
-            data[key].update({e.id: e for e in delta.added})
+            # NOTE: copy the elements, do not keep references into the delta:
+            # merging the "updated" part of the same delta into them would
+            # otherwise change the "added" part that is about to be
+            # published, and subscribers would apply those updates twice.
+            for element in delta.added:
+                new_element = MESSAGE_MAP[key]()
+                new_element.CopyFrom(element)
+                data[key][element.id] = new_element
         elif delta.added.ListFields():
             data[key].CopyFrom(delta.added)
 
